@@ -17,6 +17,7 @@ TOKENS = {
     "long_e0": "é" * 700, "long_e1": "x" + "é" * 700,
     "long_h0": "漢" * 500, "long_h1": "x" + "漢" * 500, "long_h2": "xx" + "漢" * 500,
     "long_4": "😀" * 400,
+    "dblist": "d|$admin", "dblist_bad_first": "ghost|d", "dblist_bad_last": "d|ghost", "dblist_empty_item": "d||$admin",
 }
 PARSER_WORDS = None
 
@@ -211,7 +212,7 @@ def run(tier, seed):
         "evaluations": sum(1 for c in cases for s in c["steps"] if s["op"]["op"] in ("fuzz", "garbage")),
         "distinct_nontrivial": distinct_lines,
         "rule": "MC_Fuzz enumerates (command word incl. unknown/empty) x argument lists of 0..MaxArgs "
-                "tokens from 23 token classes (incl. very long non-ASCII tokens at every byte alignment) + the word's sub-command keywords; every line is sent "
+                "tokens from 27 token classes (incl. very long non-ASCII tokens at every byte alignment) + the word's sub-command keywords; every line is sent "
                 "from an unauthenticated, a database-token and an administrator session, each followed "
                 "by a probe set/get from another client; plus seeded sequences of 1-4 lines with up to "
                 "5 arguments and random byte strings. Distinct = distinct concrete lines.",
